@@ -21,6 +21,9 @@ variable {α : Type}
 def FitsC (i : Int) : Prop := -2147483648 ≤ i ∧ i < 2147483648
 instance (i : Int) : Decidable (FitsC i) := by unfold FitsC; infer_instance
 
+/-- A value converted to int32 by wrapping (two's complement), what `ndarray.astype(numpy.int32)` does. -/
+def wrap32 (i : Int) : Int := (i + 2147483648) % 4294967296 - 2147483648
+
 /-- One `if <test>: limit = <constant>` statement; `none` is Python's `None`. -/
 def applyLimitStep (n : Int) (cur : Option Int) (s : (Bool → Int → Int → Bool) × Int) : Option Int :=
   match cur with
@@ -50,14 +53,17 @@ inductive PubOutcome (α : Type) where
   deriving Repr, DecidableEq
 
 /-- `DataFrame.collect(columns, limit)` on a frame with the given column names and (materialised)
-rows; `single` = the request was not a list/tuple/set. -/
-def publicCollect (names : List String) (rows : List (RowObj α)) (cols : List ColRef) (single : Bool)
+rows; `single` = the request was not a list/tuple/set; `checked` = the positions are converted to the
+kernel's int32 buffer by a conversion that rejects values outside int32 (else: one that wraps). -/
+def publicCollectWith (checked : Bool) (names : List String) (rows : List (RowObj α)) (cols : List ColRef) (single : Bool)
     (limit : Option Int) : PubOutcome α :=
   match cols.mapM (resolve names) with                                   -- dataframe.py:228-232
   | none => .raises "ValueError"
   | some idxs =>
-    if idxs.any (fun i => decide (¬ FitsC i)) then .raises "OverflowError"         -- numpy.array(…, dtype=int32)
+    if checked = true ∧ idxs.any (fun i => decide (¬ FitsC i)) = true
+      then .raises "OverflowError"                                       -- numpy.array(…, dtype=int32) rejects
     else
+      let idxs := if checked = true then idxs else idxs.map wrap32       -- `.astype(int32)` wraps
       match normLimit limit rows.length with
       | none => .raises "TypeError"                                      -- None reaches the C int parameter
       | some l =>
@@ -72,6 +78,11 @@ def publicCollect (names : List String) (rows : List (RowObj α)) (cols : List C
             else .many m
           | .raises c => .raises c
           | .oob => .oob
+
+/-- `DataFrame.collect` with the int32 conversion the source has now (`Gen.CallSites.indexConvChecked`). -/
+def publicCollect (names : List String) (rows : List (RowObj α)) (cols : List ColRef) (single : Bool)
+    (limit : Option Int) : PubOutcome α :=
+  publicCollectWith Gen.CallSites.indexConvChecked names rows cols single limit
 
 /-- Number of rows the plain-Python definition collects: the first `limit` rows, all rows when the
 limit is `None`, negative, or at/beyond the row count. -/
@@ -91,14 +102,23 @@ structure RowClass where
 def createClass (schema : List String) (tuplesOnly : Bool) : RowClass := ⟨schema, tuplesOnly⟩
 
 inductive RowArg (α : Type) where
-  | dict (d : List (String × α))
+  | dict (exact : Bool) (d : List (String × α))   -- `exact`: a `dict` itself, not an instance of a subclass (OrderedDict, defaultdict, …)
   | tuple (t : List α)
 
-/-- `cls(data)` (`row.py:77-93`).  `none`: a dictionary given to a tuples-only class, which is
-outside that class's contract (the real object holds the dictionary's keys). -/
-def rowNew (null : α) (cls : RowClass) : RowArg α → Option (List α)
+/-- `cls(data)` (`row.py:77-93`).  `none`: the row is not the extraction -- a dictionary given to a
+tuples-only class (outside that class's contract: the real object holds the dictionary's keys), a
+subclass instance that the guard does not admit (the keys again) or that reaches the helper uncopied
+(`TypeError`: the compiled helper takes exact dictionaries only).  Which of these can happen is
+decided by the generated `rowGuardAdmitsSubclass` / `rowCopiesSubclass` (the `if` in the source). -/
+def rowNewWith (admitsSub copiesSub : Bool) (null : α) (cls : RowClass) : RowArg α → Option (List α)
   | .tuple t => some t
-  | .dict d => if cls.tuplesOnly then none else some (DictRow.extract null cls.fields d)
+  | .dict exact d =>
+    if cls.tuplesOnly then none
+    else if exact || (admitsSub && copiesSub) then some (DictRow.extract null cls.fields d)
+    else none
+
+def rowNew (null : α) (cls : RowClass) (arg : RowArg α) : Option (List α) :=
+  rowNewWith Gen.CallSites.rowGuardAdmitsSubclass Gen.CallSites.rowCopiesSubclass null cls arg
 
 /-- A session: classes are created (by `Row.create_class`, `DataFrame(...)`, `from_arrow`, …) and
 rows are built through any class created so far. -/
@@ -114,14 +134,32 @@ def runOps (null : α) : List RowClass → List (ClassOp α) → List (Option (L
 
 /-! ## The display's column measurement -/
 
-/-- `data_width = [calculate_data_width(t.collect(i, <measure>)) for i in range(t.columncount)]`
-(`display.py:344`) on the printed frame `t`; a cell is its rendered length, `none` = null.
-`none` in the result: the collection did not return a column. -/
+/-- A generated column reference (`Gen.CallSites.measureRefs`) as a request to `DataFrame.collect`. -/
+def refOf : Sum Int String → ColRef
+  | .inl i => .idx i
+  | .inr s => .name s
+
+/-- `calculate_data_width(<collected column>)`; `none`: the collection did not return a column. -/
+def widthOf : PubOutcome (Option Nat) → Option Nat
+  | .one c => some (dataWidth c)
+  | _ => none
+
+/-- `calculate_data_width(t.collect(<ref>, <measure>))` for one requested column of the printed frame `t`;
+a cell is its rendered length, `none` = null. -/
+def measureOne (names : List String) (trows : List (RowObj (Option Nat))) (limit : Int) (cr : ColRef) : Option Nat :=
+  widthOf (publicCollect names trows [cr] true (Gen.CallSites.measureLimit limit))
+
+/-- `data_width = [calculate_data_width(t.collect(<ref>, <measure>)) for <var> in <columns>]`
+(`display.py:344`).  Which column is collected for each printed column (`Gen.CallSites.measureRefs`: the
+loop and the argument of `t.collect`, from the source) and the limit (`measureLimit`) are generated. -/
 def displayDataWidths (names : List String) (trows : List (RowObj (Option Nat))) (limit : Int) :
     List (Option Nat) :=
-  (List.range names.length).map fun (i : Nat) =>
-    match publicCollect names trows [.idx (Int.ofNat i)] true (Gen.CallSites.measureLimit limit) with
-    | .one c => some (dataWidth c)
-    | _ => none
+  (Gen.CallSites.measureRefs names).map fun ref => measureOne names trows limit (refOf ref)
+
+/-- The same measurement made **by name** (`t.collect(name) for name in t.column_names`): what the
+display would compute if it handed the helper the column *named* like the printed column. -/
+def displayDataWidthsByName (names : List String) (trows : List (RowObj (Option Nat))) (limit : Int) :
+    List (Option Nat) :=
+  names.map fun s => measureOne names trows limit (.name s)
 
 end CallSites
